@@ -395,6 +395,16 @@ func check(c *pbt.Case, r *pbt.R) {
 		for i := 0; i < len(gen.Chain1(n)) && w != nil; i, w = i+1, errors.UnwrapOnce(w) {
 			have = append(have, errors.GetSafeDetails(w).SafeDetails...)
 		}
+		if gen.IsBarrierKind(n.K) {
+			// ... and a barrier's details end with a rendering of the whole
+			// hidden error: every layer of its chain is named there.
+			all := strings.Join(have, "\n")
+			for _, l := range gen.Chain(n.C) {
+				if !strings.Contains(all, l.Typ) {
+					r.Failf("a barrier's safe details do not render every layer of the hidden error", "layer type %s missing\nspec %s", l.Typ, c.Spec)
+				}
+			}
+		}
 		for _, hid := range hids {
 			for x := b.Of[hid]; x != nil; x = errors.UnwrapOnce(x) {
 				for _, sd := range errors.GetSafeDetails(x).SafeDetails {
@@ -413,6 +423,42 @@ func check(c *pbt.Case, r *pbt.R) {
 				}
 			}
 		}
+	}
+
+	// (vi) ... also at a process that knows neither barriers nor secondary
+	// errors: the hiding layers arrive there as opaque values, and what
+	// they report must still contain every safe detail the origin reports
+	// for them (the details travel with the layer).
+	{
+		const barrierFam = "github.com/cockroachdb/errors/barriers/*barriers.barrierErr"
+		const secondaryFam = "github.com/cockroachdb/errors/secondary/*secondary.withSecondaryError"
+		sent := wire.Encode(e) // (encoded at the origin, which knows the types)
+		wire.At([]string{barrierFam, secondaryFam}, func() {
+			mid := wire.Decode(sent)
+			var rec func(o, m *obs.Node)
+			rec = func(o, m *obs.Node) {
+				if tn := fmt.Sprintf("%T", o.Err); tn == "*barriers.barrierErr" || tn == "*secondary.withSecondaryError" {
+					got := errors.GetSafeDetails(m.Err).SafeDetails
+					for _, d := range errors.GetSafeDetails(o.Err).SafeDetails {
+						found := false
+						for _, x := range got {
+							if x == d {
+								found = true
+							}
+						}
+						if !found {
+							r.Failf("a hiding layer loses safe details at a process that does not know its type: "+tn, "detail %.200q\nspec %s", d, c.Spec)
+						}
+					}
+				}
+				for i := range o.Kids {
+					if i < len(m.Kids) {
+						rec(o.Kids[i], m.Kids[i])
+					}
+				}
+			}
+			rec(obs.Shape(e), obs.Shape(mid))
+		})
 	}
 
 	rich := false
